@@ -131,3 +131,9 @@ def ns_get(ns, key):
 @prim
 def html_ns_map():
     return {'html': NS_XHTML}
+
+
+@prim
+def html_free_map():
+    """The empty prefix map."""
+    return {}
